@@ -133,7 +133,8 @@ def gen_inputs(d: Draw, max_cases):
         if scale == 'log':
             start, end = d.pick([(-2.0, 1.0), (0.0, 3.0), (-1.0, 0.0), (2.0, 5.0)])
         else:
-            start, end = d.pick([(0.0, 1.0), (-1.0, 1.0), (10.0, 50.0), (0.1, 0.9), (273.15, 1800.0)])
+            start, end = d.pick([(0.0, 1.0), (-1.0, 1.0), (10.0, 50.0), (0.1, 0.9), (273.15, 1800.0),
+                                 (1e-05, 3e-05), (0.30000000000000004, 0.9), (-1e+22, 1e+22)])   # repr round trips in the journal
         n = d.between(1, 4)
         if long_axis:
             n = d.between(11, 14) if di == long_dim else d.between(1, 2)
